@@ -303,6 +303,19 @@ pub struct Obs {
     pub call_stack: Vec<u64>,
 }
 
+/// registers only (no hashing of memory): for per-operation checks on machines with large areas
+pub fn observe_regs(ax: &Axecutor) -> ([u64; 16], u64, [u128; 16]) {
+    let mut gpr = [0u64; 16];
+    for (i, r) in GPR64.iter().enumerate() {
+        gpr[i] = ax.reg_read_64(*r).unwrap_or(0xdead_dead);
+    }
+    let mut xmm = [0u128; 16];
+    for (i, r) in XMM.iter().enumerate() {
+        xmm[i] = ax.reg_read_128(*r).unwrap_or(0xdead_dead);
+    }
+    (gpr, ax.reg_read_64(SupportedRegister::RIP).unwrap_or(0xdead_dead), xmm)
+}
+
 pub fn observe(ax: &Axecutor) -> Obs {
     let mut gpr = [0u64; 16];
     for (i, r) in GPR64.iter().enumerate() {
